@@ -334,7 +334,7 @@ fn run_isolation(variant: usize, k: usize, seed: u64, iters: usize, pred: Pred, 
 
 pub fn run(r: &mut Report) {
     let mut rng = Rng::new(r.seed ^ 0xC14);
-    let iters = if r.quick() { 100 } else { 1000 };
+    let iters = if r.quick() { 200 } else { 1000 };
     let mut items: Vec<(usize, usize, u64, Pred)> = vec![];
     for variant in 0..4 {
         for k in [0usize, 2, 4, 5, 6, 7] {
